@@ -315,12 +315,13 @@ pub fn check_c03(c: &Case) -> Check {
             ic_expected(m.recs[1].len(), m.linked(1, t).len()),
             ic_expected(m.recs[2].len(), m.linked(2, t).len()),
         ];
-        expect(&format!("gene IC of {}", m.ids[t]), ic.gene().to_bits(), exp[0].to_bits())?;
-        expect(&format!("omim IC of {}", m.ids[t]), ic.omim_disease().to_bits(), exp[1].to_bits())?;
-        expect(&format!("orpha IC of {}", m.ids[t]), ic.orpha_disease().to_bits(), exp[2].to_bits())?;
-        expect("get_kind(Gene)", ic.get_kind(&InformationContentKind::Gene).to_bits(), exp[0].to_bits())?;
-        expect("get_kind(Omim)", ic.get_kind(&InformationContentKind::Omim).to_bits(), exp[1].to_bits())?;
-        expect("get_kind(Orpha)", ic.get_kind(&InformationContentKind::Orpha).to_bits(), exp[2].to_bits())?;
+        // numeric equality (0.0 == -0.0): the property fixes the value, not the sign of zero
+        expect(&format!("gene IC of {}", m.ids[t]), ic.gene(), exp[0])?;
+        expect(&format!("omim IC of {}", m.ids[t]), ic.omim_disease(), exp[1])?;
+        expect(&format!("orpha IC of {}", m.ids[t]), ic.orpha_disease(), exp[2])?;
+        expect("get_kind(Gene)", ic.get_kind(&InformationContentKind::Gene), exp[0])?;
+        expect("get_kind(Omim)", ic.get_kind(&InformationContentKind::Omim), exp[1])?;
+        expect("get_kind(Orpha)", ic.get_kind(&InformationContentKind::Orpha), exp[2])?;
         for v in exp {
             if !(v.is_finite() && v >= 0.0) {
                 return Err(format!("IC {v} is negative or not finite"));
@@ -749,6 +750,8 @@ pub fn cases(thorough: bool, idmaps: &[u8], with_facts: bool) -> Vec<Case> {
     out
 }
 
+pub static THOROUGH: std::sync::atomic::AtomicBool = std::sync::atomic::AtomicBool::new(false);
+
 pub fn run_parallel(cs: Vec<Case>, f: fn(&Case) -> Check) -> Result<usize, (Case, String)> {
     let n = cs.len();
     let nthreads = std::thread::available_parallelism().map(|x| x.get()).unwrap_or(4).min(16);
@@ -791,7 +794,12 @@ pub fn oracle(prop: &str) -> Option<(fn(&Case) -> Check, &'static [u8], bool)> {
         "C01" => (check_c01, &[0, 1, 2], false),
         "C02" => (check_c02, &[1], true),
         "C03" => (check_c03, &[1], true),
+        "C04" => (check_c04, &[1], true),
+        "C05" => (check_c05, &[1], false),
+        "C06" => (check_c06, &[1], true),
         "C07" => (check_c07, &[0], true),
+        "C08" => (check_c08, &[0], true),
+        "C18" => (check_c18, &[1], true),
         "C10" => (check_c10, &[0, 2], true),
         "C12" => (check_c12, &[1, 2], false),
         "C13" => (check_c13, &[0], true),
@@ -818,6 +826,16 @@ pub fn explore(prop: &str, thorough: bool) -> i32 {
             }
         }
     }
+    if prop == "C06" {
+        match check_c06_large(thorough) {
+            Ok(n) => extra = n,
+            Err(e) => {
+                println!("EXPLORE-VIOLATION property={prop} case=large what={}", e.replace('\n', " | "));
+                return 1;
+            }
+        }
+    }
+    THOROUGH.store(thorough, std::sync::atomic::Ordering::Relaxed);
     let cs = cases(thorough, idmaps, with_facts);
     let distinct: BTreeSet<(usize, u32)> = cs.iter().map(|c| (c.n, c.edges)).collect();
     let sample = cs.get(cs.len() / 2).map(|c| c.id()).unwrap_or_default();
@@ -840,6 +858,13 @@ pub fn explore(prop: &str, thorough: bool) -> i32 {
 
 pub fn replay_case(prop: &str, id: &str) -> (bool, String) {
     panic::set_hook(Box::new(|_| {}));
+    THOROUGH.store(true, std::sync::atomic::Ordering::Relaxed);
+    if id == "large" {
+        return match check_c06_large(true) {
+            Ok(_) => (false, "large-population enrichment as specified".into()),
+            Err(e) => (true, e),
+        };
+    }
     if id == "groups" {
         return match check_c12_groups(true) {
             Ok(_) => (false, "group algebra as specified".into()),
@@ -857,4 +882,626 @@ pub fn replay_case(prop: &str, id: &str) -> (bool, String) {
         Ok(Err(e)) => (true, format!("case {id} (terms {:?}): {e}", ids(c.idmap, c.n))),
         Ok(Ok(())) => (false, format!("case {id}: as specified")),
     }
+}
+
+// ================================================================================================ C04 / C05 / C06 / C08 / C18
+use hpo::similarity::{Builtins, CachedSimilarity, Similarity, StandardCombiner};
+use hpo::HpoTerm;
+
+fn close(a: f32, b: f32) -> bool {
+    if a.is_nan() || b.is_nan() {
+        return false;
+    }
+    a == b || (a - b).abs() <= 1e-5 * (1.0 + a.abs().max(b.abs()))
+}
+
+fn ic_of(ont: &Ontology, id: u32, kind: InformationContentKind) -> f32 {
+    ont.hpo(id).unwrap().information_content().get_kind(&kind)
+}
+
+/// shortest number of parent links from node t up to node c (c must be t or an ancestor of t)
+fn dist_up(m: &Model, t: usize, c: usize) -> Option<usize> {
+    if t == c {
+        return Some(0);
+    }
+    let mut best: Option<usize> = None;
+    for &p in &m.parents[t] {
+        if let Some(d) = dist_up(m, p, c) {
+            best = Some(best.map_or(d + 1, |b| b.min(d + 1)));
+        }
+    }
+    best
+}
+
+pub fn check_c04(c: &Case) -> Check {
+    let m = Model::new(c);
+    let ont = build(c, false)?;
+    let kinds = [InformationContentKind::Gene, InformationContentKind::Omim, InformationContentKind::Orpha];
+    for (ki, kind) in kinds.iter().enumerate() {
+        for t in 0..m.n {
+            for u in 0..m.n {
+                let a = ont.hpo(m.ids[t]).unwrap();
+                let b = ont.hpo(m.ids[u]).unwrap();
+                let ic = |x: usize| ic_of(&ont, m.ids[x], *kind);
+                // common ancestors including the terms themselves / union of the proper ancestor sets, in ascending id order
+                let mut at = m.anc[t].clone();
+                at.insert(t);
+                let mut au = m.anc[u].clone();
+                au.insert(u);
+                let mut common: Vec<usize> = at.intersection(&au).copied().collect();
+                common.sort_by_key(|&x| m.ids[x]);
+                let mut union: Vec<usize> = m.anc[t].union(&m.anc[u]).copied().collect();
+                union.sort_by_key(|&x| m.ids[x]);
+                let resnik = common.iter().fold(0.0f32, |mx, &x| if ic(x) > mx { ic(x) } else { mx });
+                let graphic = if t == u {
+                    1.0
+                } else {
+                    let un: f32 = union.iter().map(|&x| ic(x)).sum();
+                    if un == 0.0 { 0.0 } else { common.iter().map(|&x| ic(x)).sum::<f32>() / un }
+                };
+                let comb = ic(t) + ic(u);
+                let lin = if comb == 0.0 { 0.0 } else { 2.0 * resnik / comb };
+                let jc = if t == u { 1.0 } else if ic(t) == 0.0 || ic(u) == 0.0 { 0.0 } else { 1.0 / (ic(t) + ic(u) - 2.0 * resnik + 1.0) };
+                let rel = lin * (1.0 - (resnik * -1.0).exp());
+                let icoef = lin * (1.0 - (1.0 / (1.0 + resnik)));
+                let d = common.iter().filter_map(|&x| Some(dist_up(&m, t, x)? + dist_up(&m, u, x)?)).min();
+                let dist = d.map_or(0.0, |n| 1.0 / (n as f32 + 1.0));
+                let (la, lb) = (m.linked(ki, t), m.linked(ki, u));
+                let all = la.union(&lb).count();
+                let mutation = if t == u { 1.0 } else if all == 0 { 0.0 } else { la.intersection(&lb).count() as f32 / all as f32 };
+                let table: [(&str, Builtins, f32); 8] = [
+                    ("GraphIC", Builtins::GraphIc(*kind), graphic),
+                    ("Resnik", Builtins::Resnik(*kind), resnik),
+                    ("Lin", Builtins::Lin(*kind), lin),
+                    ("Jc", Builtins::Jc(*kind), jc),
+                    ("Relevance", Builtins::Relevance(*kind), rel),
+                    ("InformationCoefficient", Builtins::InformationCoefficient(*kind), icoef),
+                    ("Distance", Builtins::Distance(*kind), dist),
+                    ("Mutation", Builtins::Mutation(*kind), mutation),
+                ];
+                for (name, alg, exp) in table {
+                    let got = alg.calculate(&a, &b);
+                    let rev = alg.calculate(&b, &a);
+                    if !(got.is_finite() && got >= 0.0) {
+                        return Err(format!("{name}({kind:?}) of ({}, {}) = {got}: not a finite number >= 0", m.ids[t], m.ids[u]));
+                    }
+                    if !close(got, exp) {
+                        return Err(format!("{name}({kind:?}) of ({}, {}) = {got}, documented formula gives {exp}", m.ids[t], m.ids[u]));
+                    }
+                    if !close(got, rev) {
+                        return Err(format!("{name}({kind:?}) is not symmetric on ({}, {}): {got} vs {rev}", m.ids[t], m.ids[u]));
+                    }
+                    let via_term = a.similarity_score(&b, &alg);
+                    if !close(got, via_term) {
+                        return Err(format!("similarity_score differs from calculate for {name}"));
+                    }
+                }
+                if t == u {
+                    for alg in [Builtins::GraphIc(*kind), Builtins::Jc(*kind), Builtins::Distance(*kind), Builtins::Mutation(*kind)] {
+                        if alg.calculate(&a, &b) != 1.0 {
+                            return Err(format!("{alg:?} of a term with itself is not 1"));
+                        }
+                    }
+                }
+            }
+        }
+    }
+    Ok(())
+}
+
+/// an asymmetric user-supplied similarity
+struct Asym;
+impl Similarity for Asym {
+    fn calculate(&self, a: &HpoTerm, b: &HpoTerm) -> f32 {
+        ((a.id().as_u32() % 97) * 7 + (b.id().as_u32() % 89)) as f32 / 10.0
+    }
+}
+struct Sym;
+impl Similarity for Sym {
+    fn calculate(&self, a: &HpoTerm, b: &HpoTerm) -> f32 {
+        ((a.id().as_u32() % 97) * (b.id().as_u32() % 97)) as f32 / 100.0 + 0.5
+    }
+}
+
+fn combine_expected(mat: &[Vec<f32>], which: usize) -> f32 {
+    let rows = mat.len();
+    let cols = if rows == 0 { 0 } else { mat[0].len() };
+    if rows == 0 || cols == 0 {
+        return 0.0;
+    }
+    let rmax: Vec<f32> = mat.iter().map(|r| r.iter().copied().fold(f32::MIN, f32::max)).collect();
+    let cmax: Vec<f32> = (0..cols).map(|j| mat.iter().map(|r| r[j]).fold(f32::MIN, f32::max)).collect();
+    let rs: f32 = rmax.iter().sum();
+    let cs: f32 = cmax.iter().sum();
+    match which {
+        0 => (rs / rows as f32 + cs / cols as f32) / 2.0,
+        1 => (rs / rows as f32).max(cs / cols as f32),
+        _ => (rs + cs) / (rows as f32 + cols as f32),
+    }
+}
+
+pub fn check_c05(c: &Case) -> Check {
+    let m = Model::new(c);
+    let ont = build(c, false)?;
+    let combs = [StandardCombiner::FunSimAvg, StandardCombiner::FunSimMax, StandardCombiner::Bma];
+    for ma in 0..(1u32 << m.n) {
+        for mb in 0..(1u32 << m.n) {
+            let mut a: Vec<usize> = (0..m.n).filter(|k| ma >> k & 1 == 1).collect();
+            let mut b: Vec<usize> = (0..m.n).filter(|k| mb >> k & 1 == 1).collect();
+            // sets iterate in ascending id order
+            a.sort_by_key(|&x| m.ids[x]);
+            b.sort_by_key(|&x| m.ids[x]);
+            let sa = HpoSet::new(&ont, group_of(&a.iter().map(|&x| m.ids[x]).collect()));
+            let sb = HpoSet::new(&ont, group_of(&b.iter().map(|&x| m.ids[x]).collect()));
+            for (wi, comb) in combs.iter().enumerate() {
+                let mat: Vec<Vec<f32>> = a.iter().map(|&x| b.iter().map(|&y| Asym.calculate(&ont.hpo(m.ids[x]).unwrap(), &ont.hpo(m.ids[y]).unwrap())).collect()).collect();
+                let exp = combine_expected(&mat, wi);
+                let got = sa.similarity(&sb, Asym, *comb);
+                if !close(got, exp) {
+                    return Err(format!("{comb:?} of sets {:?} x {:?} with an asymmetric similarity = {got}, documented combination gives {exp}", a.iter().map(|&x| m.ids[x]).collect::<Vec<_>>(), b.iter().map(|&x| m.ids[x]).collect::<Vec<_>>()));
+                }
+                let cached = sa.similarity(&sb, CachedSimilarity::new(Asym), *comb);
+                if !close(got, cached) {
+                    return Err(format!("{comb:?}: the caching adaptor changes the result ({got} vs {cached})"));
+                }
+                let s1 = sa.similarity(&sb, Sym, *comb);
+                let s2 = sb.similarity(&sa, Sym, *comb);
+                if !close(s1, s2) {
+                    return Err(format!("{comb:?} with a symmetric similarity depends on the argument order ({s1} vs {s2})"));
+                }
+            }
+        }
+    }
+    Ok(())
+}
+
+fn ln_choose(n: u64, k: u64) -> f64 {
+    if k > n {
+        return f64::NEG_INFINITY;
+    }
+    let mut s = 0.0f64;
+    for i in 0..k {
+        s += ((n - i) as f64).ln() - ((i + 1) as f64).ln();
+    }
+    s
+}
+/// P[X >= k], X ~ Hypergeometric(N, K, n)
+fn hyper_tail(nn: u64, kk: u64, n: u64, k: u64) -> f64 {
+    let mut p = 0.0;
+    let hi = kk.min(n);
+    let mut i = k;
+    while i <= hi {
+        p += (ln_choose(kk, i) + ln_choose(nn - kk, n - i) - ln_choose(nn, n)).exp();
+        i += 1;
+    }
+    p
+}
+
+pub fn check_c06(c: &Case) -> Check {
+    use hpo::stats::hypergeom::{gene_enrichment, omim_disease_enrichment, orpha_disease_enrichment};
+    let m = Model::new(c);
+    let ont = build(c, false)?;
+    let nn = m.n as u64;
+    for mask in 1..(1u32 << m.n) {
+        let sample: Vec<usize> = (0..m.n).filter(|k| mask >> k & 1 == 1).collect();
+        let set = HpoSet::new(&ont, group_of(&sample.iter().map(|&x| m.ids[x]).collect()));
+        for kind in 0..3 {
+            let got: BTreeMap<u32, (u64, f64, f64)> = match kind {
+                0 => gene_enrichment(&ont, &set).iter().map(|e| (e.id().as_u32(), (e.count(), e.pvalue(), e.enrichment()))).collect(),
+                1 => omim_disease_enrichment(&ont, &set).iter().map(|e| (e.id().as_u32(), (e.count(), e.pvalue(), e.enrichment()))).collect(),
+                _ => orpha_disease_enrichment(&ont, &set).iter().map(|e| (e.id().as_u32(), (e.count(), e.pvalue(), e.enrichment()))).collect(),
+            };
+            let mut exp: BTreeMap<u32, (u64, f64, f64)> = BTreeMap::new();
+            for (&r, _) in &m.recs[kind] {
+                let k = sample.iter().filter(|&&x| m.linked(kind, x).contains(&r)).count() as u64;
+                let kk = (0..m.n).filter(|&x| m.linked(kind, x).contains(&r)).count() as u64;
+                if k > 0 {
+                    let n = sample.len() as u64;
+                    exp.insert(r, (k, hyper_tail(nn, kk, n, k), (k as f64 / n as f64) / (kk as f64 / nn as f64)));
+                }
+            }
+            if got.keys().collect::<Vec<_>>() != exp.keys().collect::<Vec<_>>() {
+                return Err(format!("kind {kind} sample {:?}: records for {:?}, specified {:?}", sample, got.keys(), exp.keys()));
+            }
+            for (r, (k, p, f)) in &exp {
+                let (gk, gp, gf) = got[r];
+                if gk != *k || (gp - p).abs() > 1e-9 || (gf - f).abs() > 1e-9 || !(0.0..=1.0 + 1e-12).contains(&gp) {
+                    return Err(format!("kind {kind} record {r} sample {:?}: (count, p, fold) = ({gk}, {gp}, {gf}), specified ({k}, {p}, {f})", sample.iter().map(|&x| m.ids[x]).collect::<Vec<_>>()));
+                }
+            }
+        }
+    }
+    Ok(())
+}
+
+// ---- independent encoder of the documented binary layouts (v1, v2, v3)
+fn be(x: u32) -> [u8; 4] {
+    x.to_be_bytes()
+}
+fn section(records: Vec<Vec<u8>>) -> Vec<u8> {
+    let body: Vec<u8> = records.concat();
+    let mut v = be(body.len() as u32).to_vec();
+    v.extend(body);
+    v
+}
+pub struct Enc {
+    pub version: u8,
+    pub reverse: bool,
+    /// per node: (obsolete, replacement id or 0)
+    pub flags: Vec<(bool, u32)>,
+}
+pub fn encode(c: &Case, e: &Enc) -> Vec<u8> {
+    let m = Model::new(c);
+    let mut out = vec![];
+    if e.version >= 2 {
+        out.extend([0x48, 0x50, 0x4f, e.version]);
+        out.extend(2024u16.to_be_bytes());
+        out.extend([3u8, 7u8]);
+    }
+    let mut order: Vec<usize> = (0..m.n).collect();
+    if e.reverse {
+        order.reverse();
+    }
+    let terms: Vec<Vec<u8>> = order
+        .iter()
+        .map(|&t| {
+            let name = name255(&name_of(t));
+            let nb = name.as_bytes();
+            let mut r = vec![];
+            if e.version == 1 {
+                r.extend(be(9 + nb.len() as u32));
+                r.extend(be(m.ids[t]));
+                r.push(nb.len() as u8);
+                r.extend(nb);
+            } else {
+                r.extend(be(14 + nb.len() as u32));
+                r.extend(be(m.ids[t]));
+                r.push(nb.len() as u8);
+                r.extend(nb);
+                r.push(u8::from(e.flags[t].0));
+                r.extend(be(e.flags[t].1));
+            }
+            r
+        })
+        .collect();
+    out.extend(section(terms));
+    let parents: Vec<Vec<u8>> = order
+        .iter()
+        .map(|&t| {
+            let mut r = be(m.parents[t].len() as u32).to_vec();
+            r.extend(be(m.ids[t]));
+            let mut ps: Vec<usize> = m.parents[t].iter().copied().collect();
+            if e.reverse {
+                ps.reverse();
+            }
+            for p in ps {
+                r.extend(be(m.ids[p]));
+            }
+            r
+        })
+        .collect();
+    out.extend(section(parents));
+    for kind in 0..3 {
+        if kind == 2 && e.version < 3 {
+            break;
+        }
+        let mut recs: Vec<Vec<u8>> = m.recs[kind]
+            .iter()
+            .map(|(r, ds)| {
+                let name = match kind { 0 => format!("G{r}"), 1 => format!("O{r}"), _ => format!("R{r}") };
+                let nb = name.as_bytes();
+                let mut v = vec![];
+                if kind == 0 {
+                    v.extend(be(13 + nb.len() as u32 + 4 * ds.len() as u32));
+                    v.extend(be(*r));
+                    v.push(nb.len() as u8);
+                } else {
+                    v.extend(be(16 + nb.len() as u32 + 4 * ds.len() as u32));
+                    v.extend(be(*r));
+                    v.extend(be(nb.len() as u32));
+                }
+                v.extend(nb);
+                v.extend(be(ds.len() as u32));
+                let mut dv: Vec<usize> = ds.iter().copied().collect();
+                if e.reverse {
+                    dv.reverse();
+                }
+                for d in dv {
+                    v.extend(be(m.ids[d]));
+                }
+                v
+            })
+            .collect();
+        if e.reverse {
+            recs.reverse();
+        }
+        out.extend(section(recs));
+    }
+    out
+}
+
+fn load(bytes: &[u8]) -> Result<Result<Ontology, String>, ()> {
+    panic::catch_unwind(|| Ontology::from_bytes(bytes).map_err(|e| format!("{e}"))).map_err(|_| ())
+}
+
+pub fn check_c08(c: &Case) -> Check {
+    if c.n < 2 || c.edges & 1 == 0 {
+        return Ok(());
+    }
+    let m = Model::new(c);
+    // reference: the same facts through the Builder (names cut to the documented limit)
+    for version in [1u8, 2, 3] {
+        let mut cv = c.clone();
+        if version < 3 {
+            cv.facts.retain(|f| f.0 != 2);
+        }
+        let reference = walk_with(&build(&cv, true)?, true);
+        let reference = if version == 1 { reference.replacen("v0000-00-00", "v0000-00-00", 1) } else { reference };
+        for reverse in [false, true] {
+            let flags: Vec<(bool, u32)> = (0..m.n).map(|t| (t == 2 && version > 1, if t == 3 && version > 1 { m.ids[0] } else { 0 })).collect();
+            let enc = Enc { version, reverse, flags: flags.clone() };
+            let bytes = encode(&cv, &enc);
+            let ont = match load(&bytes) {
+                Err(()) => return Err(format!("from_bytes panicked on a valid v{version} file (record order reversed: {reverse})")),
+                Ok(Err(e)) => return Err(format!("from_bytes rejected a valid v{version} file (record order reversed: {reverse}): {e}")),
+                Ok(Ok(o)) => o,
+            };
+            // obsolete flags / replacements / version are not expressible through the Builder: compare them separately
+            for t in 0..m.n {
+                let h = ont.hpo(m.ids[t]).ok_or("term missing after decoding")?;
+                expect(&format!("v{version} obsolete flag of {}", m.ids[t]), h.is_obsolete(), flags[t].0)?;
+                expect(&format!("v{version} replacement of {}", m.ids[t]), h.replacement_id().map(|x| x.as_u32()), if flags[t].1 != 0 { Some(flags[t].1) } else { None })?;
+            }
+            expect(&format!("v{version} release version"), ont.hpo_version(), if version == 1 { "0000-00-00".to_string() } else { "2024-03-07".to_string() })?;
+            let w = walk(&ont);
+            // mask what differs by construction: version string, obsolete flags, replacements
+            let norm = |s: &str| -> String {
+                let mut t = s.to_string();
+                if let Some(i) = t.find(" n") {
+                    t = t[i..].to_string();
+                }
+                let re_obs = ["obstrue", "obsfalse"];
+                for r in re_obs {
+                    t = t.replace(r, "obs_");
+                }
+                let mut out = String::new();
+                let mut rest = t.as_str();
+                while let Some(i) = rest.find(" rep") {
+                    out += &rest[..i];
+                    let tail = &rest[i + 4..];
+                    let j = tail.find(" p").unwrap_or(0);
+                    out += " rep_";
+                    rest = &tail[j..];
+                }
+                out += rest;
+                out
+            };
+            if norm(&w) != norm(&reference) {
+                return Err(format!("a v{version} file (record order reversed: {reverse}) decodes to a different ontology than the one it describes:\n decoded:  {w}\n expected: {reference}"));
+            }
+            let sweep = THOROUGH.load(std::sync::atomic::Ordering::Relaxed) || c.n < 4 || (c.edges % 8 == 7 && c.facts.len() % 2 == 1);
+            if c.order == 0 && !reverse && sweep {
+                // every proper prefix and small extensions must be rejected (error or documented panic), never returned
+                for cut in 0..bytes.len() {
+                    if let Ok(Ok(_)) = load(&bytes[..cut]) {
+                        return Err(format!("a v{version} file truncated to {cut} of {} bytes was accepted", bytes.len()));
+                    }
+                }
+                for extra in [1usize, 2, 3, 4, 5, 8] {
+                    let mut b2 = bytes.clone();
+                    b2.extend(std::iter::repeat(0u8).take(extra));
+                    if let Ok(Ok(_)) = load(&b2) {
+                        return Err(format!("a v{version} file followed by {extra} extra bytes was accepted"));
+                    }
+                    let mut b3 = bytes.clone();
+                    b3.extend(std::iter::repeat(0xffu8).take(extra));
+                    if let Ok(Ok(_)) = load(&b3) {
+                        return Err(format!("a v{version} file followed by {extra} extra 0xff bytes was accepted"));
+                    }
+                }
+                if version >= 2 {
+                    for vb in 0..=255u8 {
+                        if vb == 2 || vb == 3 {
+                            continue;
+                        }
+                        let mut b4 = bytes.clone();
+                        b4[3] = vb;
+                        if let Ok(Ok(_)) = load(&b4) {
+                            return Err(format!("a file announcing the unsupported version byte {vb} was accepted"));
+                        }
+                    }
+                }
+            }
+        }
+    }
+    Ok(())
+}
+
+pub fn check_c18(c: &Case) -> Check {
+    let m = Model::new(c);
+    let o = build(c, false)?;
+    let cmp = o.compare(&o);
+    if !(cmp.added_hpo_terms().is_empty() && cmp.removed_hpo_terms().is_empty() && cmp.changed_hpo_terms().is_empty()
+        && cmp.added_genes().is_empty() && cmp.removed_genes().is_empty() && cmp.changed_genes().is_empty()
+        && cmp.added_omim_diseases().is_empty() && cmp.removed_omim_diseases().is_empty() && cmp.changed_omim_diseases().is_empty()
+        && cmp.added_orpha_diseases().is_empty() && cmp.removed_orpha_diseases().is_empty() && cmp.changed_orpha_diseases().is_empty())
+    {
+        return Err("comparing an ontology with itself reports differences".into());
+    }
+    // one-edit variants: drop the last term / flip one edge / add one annotation
+    let mut variants: Vec<Case> = vec![];
+    if c.n > 1 {
+        let np = pairs(c.n - 1).len();
+        let mut v = c.clone();
+        v.n = c.n - 1;
+        // keep only edges among the first n-1 nodes (pairs are enumerated lexicographically over n, so rebuild)
+        let mut e2 = 0u32;
+        for (k2, (i, j)) in pairs(c.n - 1).into_iter().enumerate() {
+            let k = pairs(c.n).iter().position(|&p| p == (i, j)).unwrap();
+            if c.edges >> k & 1 == 1 {
+                e2 |= 1 << k2;
+            }
+        }
+        let _ = np;
+        v.edges = e2;
+        v.facts.retain(|f| (f.2 as usize) < c.n - 1);
+        variants.push(v);
+    }
+    for k in 0..pairs(c.n).len() {
+        let mut v = c.clone();
+        v.edges ^= 1 << k;
+        variants.push(v);
+    }
+    for d in 0..c.n as u8 {
+        let mut v = c.clone();
+        v.facts.push((0, 1, d));
+        variants.push(v);
+        let mut v = c.clone();
+        v.facts.push((1, 77, d));
+        variants.push(v);
+    }
+    for v in variants {
+        let mv = Model::new(&v);
+        let o2 = build(&v, false)?;
+        for (old, new, mo, mn) in [(&o, &o2, &m, &mv), (&o2, &o, &mv, &m)] {
+            let cmp = old.compare(new);
+            let ids_old: BTreeSet<u32> = mo.ids.iter().copied().collect();
+            let ids_new: BTreeSet<u32> = mn.ids.iter().copied().collect();
+            let added: BTreeSet<u32> = cmp.added_hpo_terms().iter().map(|t| t.id().as_u32()).collect();
+            let removed: BTreeSet<u32> = cmp.removed_hpo_terms().iter().map(|t| t.id().as_u32()).collect();
+            expect("added terms", added, ids_new.difference(&ids_old).copied().collect())?;
+            expect("removed terms", removed, ids_old.difference(&ids_new).copied().collect())?;
+            // changed terms: present in both with different direct parents (names/flags are equal here)
+            let mut exp_changed: BTreeMap<u32, (BTreeSet<u32>, BTreeSet<u32>)> = BTreeMap::new();
+            for &id in ids_old.intersection(&ids_new) {
+                let po = mo.idset(&mo.parents[mo.ids.iter().position(|&x| x == id).unwrap()]);
+                let pn = mn.idset(&mn.parents[mn.ids.iter().position(|&x| x == id).unwrap()]);
+                if po != pn {
+                    exp_changed.insert(id, (pn.difference(&po).copied().collect(), po.difference(&pn).copied().collect()));
+                }
+            }
+            let got_changed: BTreeMap<u32, (BTreeSet<u32>, BTreeSet<u32>)> = cmp
+                .changed_hpo_terms()
+                .iter()
+                .map(|d| {
+                    (
+                        d.id().as_u32(),
+                        (
+                            d.added_parents().map(|v| v.iter().map(|x| x.as_u32()).collect()).unwrap_or_default(),
+                            d.removed_parents().map(|v| v.iter().map(|x| x.as_u32()).collect()).unwrap_or_default(),
+                        ),
+                    )
+                })
+                .collect();
+            expect("changed terms (added parents, removed parents)", got_changed, exp_changed)?;
+            for kind in 0..3 {
+                let ro: BTreeSet<u32> = mo.recs[kind].keys().copied().collect();
+                let rn: BTreeSet<u32> = mn.recs[kind].keys().copied().collect();
+                let (ga, gr, gc): (BTreeSet<u32>, BTreeSet<u32>, BTreeMap<String, (BTreeSet<u32>, BTreeSet<u32>)>) = match kind {
+                    0 => (
+                        cmp.added_genes().iter().map(|g| g.id().as_u32()).collect(),
+                        cmp.removed_genes().iter().map(|g| g.id().as_u32()).collect(),
+                        cmp.changed_genes().iter().map(|d| (d.id().to_string(), (d.added_terms().map(|v| v.iter().map(|x| x.as_u32()).collect()).unwrap_or_default(), d.removed_terms().map(|v| v.iter().map(|x| x.as_u32()).collect()).unwrap_or_default()))).collect(),
+                    ),
+                    1 => (
+                        cmp.added_omim_diseases().iter().map(|g| g.id().as_u32()).collect(),
+                        cmp.removed_omim_diseases().iter().map(|g| g.id().as_u32()).collect(),
+                        cmp.changed_omim_diseases().iter().map(|d| (d.id().to_string(), (d.added_terms().map(|v| v.iter().map(|x| x.as_u32()).collect()).unwrap_or_default(), d.removed_terms().map(|v| v.iter().map(|x| x.as_u32()).collect()).unwrap_or_default()))).collect(),
+                    ),
+                    _ => (
+                        cmp.added_orpha_diseases().iter().map(|g| g.id().as_u32()).collect(),
+                        cmp.removed_orpha_diseases().iter().map(|g| g.id().as_u32()).collect(),
+                        cmp.changed_orpha_diseases().iter().map(|d| (d.id().to_string(), (d.added_terms().map(|v| v.iter().map(|x| x.as_u32()).collect()).unwrap_or_default(), d.removed_terms().map(|v| v.iter().map(|x| x.as_u32()).collect()).unwrap_or_default()))).collect(),
+                    ),
+                };
+                expect(&format!("added records kind {kind}"), ga, rn.difference(&ro).copied().collect())?;
+                expect(&format!("removed records kind {kind}"), gr, ro.difference(&rn).copied().collect())?;
+                let mut n_changed = 0;
+                for r in ro.intersection(&rn) {
+                    let (dso, dsn) = (mo.idset(&mo.recs[kind][r]), mn.idset(&mn.recs[kind][r]));
+                    if dso != dsn {
+                        n_changed += 1;
+                        let hit = gc.values().any(|(a, rm)| *a == dsn.difference(&dso).copied().collect::<BTreeSet<u32>>() && *rm == dso.difference(&dsn).copied().collect::<BTreeSet<u32>>());
+                        if !hit {
+                            return Err(format!("changed record {r} of kind {kind} not reported with its exact added/removed terms"));
+                        }
+                    }
+                }
+                expect(&format!("number of changed records kind {kind}"), gc.len(), n_changed)?;
+            }
+        }
+    }
+    Ok(())
+}
+
+/// C06 on populations around and above the 170-entry factorial table (bounded: the listed sizes only).
+/// Star ontology: root 1 with children 2..=N; gene K is annotated to the children 2..=K+1 (and inherited by the root).
+pub fn check_c06_large(thorough: bool) -> Result<usize, String> {
+    use hpo::stats::hypergeom::{gene_enrichment, omim_disease_enrichment, orpha_disease_enrichment};
+    let sizes: &[u32] = if thorough { &[150, 168, 169, 170, 171, 172, 173, 175, 180, 200, 260, 341, 372, 500, 1000] } else { &[169, 170, 171, 172, 175, 200, 372] };
+    let mut count = 0;
+    for &nn in sizes {
+        let mut b = Builder::new();
+        for id in 1..=nn {
+            b.new_term(&format!("t{id}"), id);
+        }
+        let mut b = b.terms_complete();
+        for id in 2..=nn {
+            b.add_parent(1u32, id).map_err(|e| format!("{e}"))?;
+        }
+        let mut b = b.connect_all_terms();
+        let ks: Vec<u32> = [1u32, 2, 5, 17, nn / 3, nn / 2, nn - 172.min(nn - 2), nn - 5, nn - 2].into_iter().filter(|&k| k >= 1 && k <= nn - 1).collect::<BTreeSet<u32>>().into_iter().collect();
+        for &k in &ks {
+            for id in 2..=(k + 1) {
+                let t: HpoTermId = id.into();
+                b.annotate_gene(GeneId::from(k), &format!("G{k}"), t).map_err(|e| format!("{e}"))?;
+                b.annotate_omim_disease(OmimDiseaseId::from(k), &format!("O{k}"), t).map_err(|e| format!("{e}"))?;
+                b.annotate_orpha_disease(OrphaDiseaseId::from(k), &format!("R{k}"), t).map_err(|e| format!("{e}"))?;
+            }
+        }
+        let ont = b.calculate_information_content().map_err(|e| format!("{e}"))?.build_minimal();
+        // samples: contiguous windows of children [lo, lo+n)
+        let windows: Vec<(u32, u32)> = vec![(2, 1), (2, 5), (2, 38), (4, 3), (nn / 3, 20), (nn / 2, 7), (2, nn - 1), (2, nn - 3), (nn - 10, 10), (12, 171.min(nn - 12))];
+        for (lo, n) in windows {
+            if lo < 2 || lo + n > nn + 1 || n == 0 {
+                continue;
+            }
+            let ids: BTreeSet<u32> = (lo..lo + n).collect();
+            let set = HpoSet::new(&ont, group_of(&ids));
+            for kind in 0..3 {
+                let got: BTreeMap<u32, (u64, f64, f64)> = match kind {
+                    0 => gene_enrichment(&ont, &set).iter().map(|e| (e.id().as_u32(), (e.count(), e.pvalue(), e.enrichment()))).collect(),
+                    1 => omim_disease_enrichment(&ont, &set).iter().map(|e| (e.id().as_u32(), (e.count(), e.pvalue(), e.enrichment()))).collect(),
+                    _ => orpha_disease_enrichment(&ont, &set).iter().map(|e| (e.id().as_u32(), (e.count(), e.pvalue(), e.enrichment()))).collect(),
+                };
+                let mut n_exp = 0;
+                for &kr in &ks {
+                    // linked sample terms: window ∩ [2, kr+1]
+                    let k = (lo..lo + n).filter(|&t| t <= kr + 1).count() as u64;
+                    if k == 0 {
+                        if got.contains_key(&kr) {
+                            return Err(format!("N={nn}: record {kr} reported although no sample term is linked"));
+                        }
+                        continue;
+                    }
+                    n_exp += 1;
+                    let kk = kr as u64 + 1; // children + root
+                    let p = hyper_tail(nn as u64, kk, n as u64, k);
+                    let f = (k as f64 / n as f64) / (kk as f64 / nn as f64);
+                    let Some(&(gk, gp, gf)) = got.get(&kr) else {
+                        return Err(format!("N={nn} kind {kind}: no record for {kr}"));
+                    };
+                    let okp = (gp - p).abs() <= 1e-7 * p.abs() + 1e-13;
+                    if gk != k || !okp || (gf - f).abs() > 1e-9 * f || !(0.0..=1.0 + 1e-9).contains(&gp) {
+                        return Err(format!("population N={nn}, K={kk}, sample n={n}, k={k} (kind {kind}, record {kr}, sample terms {lo}..{}): (count, p, fold) = ({gk}, {gp:e}, {gf}), specified ({k}, {p:e}, {f})", lo + n));
+                    }
+                    count += 1;
+                }
+                if got.len() != n_exp {
+                    return Err(format!("N={nn} kind {kind}: {} records, specified {n_exp}", got.len()));
+                }
+            }
+        }
+    }
+    Ok(count)
 }
